@@ -34,7 +34,7 @@ Step(ev) ==
     [] ev.a = "settyped"  -> SetTyped(ev.arg.h, ev.arg.data, ev.arg.off, ev.arg.zero, ev.arg.fail, ev.arg.fm)
     [] ev.a = "bufset"    -> BufSet(ev.arg.h, ev.arg.pos, ev.arg.data, ev.arg.zero, ev.arg.fail, ev.arg.fm)
     [] ev.a = "bufcut"    -> BufCut(ev.arg.h, ev.arg.off, ev.arg.n)
-    [] ev.a = "bufinsert" -> BufInsert(ev.arg.h, ev.arg.pos, ev.arg.data)
+    [] ev.a = "bufinsert" -> BufInsert(ev.arg.h, ev.arg.pos, ev.arg.data, ev.arg.dfail)
     [] ev.a = "insert"    -> \E v \in {0, 1} : ArrInsert(ev.arg.h, ev.arg.pos, ev.arg.data, ev.arg.fail, v)
     [] ev.a = "slice"     -> Slice(ev.arg.h, ev.arg.off, ev.arg.n, ev.arg.fail)
     [] ev.a = "reserve"   -> \E v \in {0, 1} : Reserve(ev.arg.h, ev.arg.len, ev.arg.typ, ev.arg.fail, v)
@@ -45,7 +45,7 @@ Step(ev) ==
 Matches(ev) ==
   LET e == obs'.exp o == ev.obs IN
   /\ "obs" \in DOMAIN ev
-  /\ e.vals = o.vals /\ e.lens = o.lens /\ e.typs = o.typs
+  /\ e.vals = o.vals /\ e.lens = o.lens /\ e.typs = o.typs /\ o.refok = "ok"
   /\ Has(o, "irefs") => e.irefs = o.irefs
   /\ Has(o, "nlive") => (e.nlive = o.nlive /\ e.bad = o.bad /\ e.dead = o.dead /\ e.dup = o.dup /\ e.orph = o.orph)
   /\ e.ret = "any" \/ e.ret = o.ret
